@@ -1,3 +1,21 @@
+/-
+  C15 — lattice paths connect exactly their endpoints: index of the property theorems.
+
+  * Props/C15/Planar.lean (all R, C ≥ 2, real and boundary-virtual plaquettes): `path_syndrome`, `path_syndrome_vector`,
+    `path_self`, `path_weight_real`, `path_weight_le`, `translation_spec`, `translation_error_iff`, `translation_symm`,
+    `virtualPlaquette_spec`, `plaquette_support`, `syndrome_bit_roundtrip`, `plaquetteIndices_spec`;
+  * Props/C15/Toric.lean (all R, C ≥ 2, all index triples modulo the shape): `path_syndrome`, `path_syndrome_vector`
+    (`_real`), `path_self`, `path_weight`, `translation_spec`, `translation_unique`, `translation_symm`,
+    `translation_error_iff`, `path_error_iff`, `distance_error_iff`, `plaquette_support`, `syndrome_bit_roundtrip`,
+    `syndrome_roundtrip`, `path_syndrome_plaquettes`;
+  * Props/C15/RotatedToric.lean (all even R, C ≥ 2, all integer index pairs): every clause, see its header.
+
+  STATED, NOT PROVED (audit): nothing — no file of C15 contains a `STATED, NOT PROVED` block, a `…_partial` or a
+  `…_bounded` theorem, or a cross-property hypothesis; every clause of the property text (endpoints, coincident
+  endpoints, weight = decoder distance / ≤ with a virtual endpoint, translations, supports, syndrome-bit round trip) is
+  a theorem for all sizes for each of the three lattices.  What is NOT a theorem: that the Python code equals the model
+  (checked by the harness on every run, exhaustively up to a size bound).
+-/
 import QecVerif.Props.C15.Planar
 import QecVerif.Props.C15.Toric
 import QecVerif.Props.C15.RotatedToric
